@@ -3,35 +3,96 @@
 
    WHAT IS MODELLED (CPython 3.12, C _decimal / libmpdec 2.5.1), and on which strings:
 
-   Domain: every code point of the string is either ASCII (< 128) or one of the non-ASCII
-   white-space characters of [uni_space], or a non-ASCII character that is NOT a Unicode
-   decimal digit (str.isdecimal() false).  Non-ASCII decimal digits (e.g. U+0663, U+FF15) are
-   OUT of the domain: Python maps them to ASCII digits before parsing, this model rejects them.
-   The harness generates only strings of the domain and checks this model against Python's own
-   int()/Decimal() on a large sample each run (a numeral-model disagreement is a harness
-   error, never a VIOLATION).  Further limits of the domain, none of them visible to
-   [parse_int]/[parse_dec] but needed for Python to agree: fewer than 4300 digits for int()
+   Domain: EVERY string of code points.  Digits are all the Unicode decimal digits (str.isdecimal(),
+   category Nd) of the running interpreter: the table [Generated.unicode_zero_digits] is emitted by
+   tools/regen.py from the interpreter's own tables on every run (it checks, fail-closed, that the decimal
+   characters come in blocks of ten consecutive code points z..z+9 whose values int() and Decimal() read
+   as 0..9, that the ASCII block is the first one and that no other block is below 128).
+   The harness checks this model against Python's own int()/Decimal() on a large sample each run (a
+   numeral-model disagreement is a harness error, never a VIOLATION).  Limits of the domain, none of
+   them visible to [parse_int]/[parse_dec] but needed for Python to agree: at most 4300 digits for int()
    (sys.int_max_str_digits), decimal exponents of at most 9 digits (libmpdec MAX_EMAX).
 
    int(s): PyLong_FromUnicodeObject -> _PyUnicode_TransformDecimalAndSpaceToASCII (non-ASCII
-   white space becomes ' ', ASCII is left alone) -> PyLong_FromString(base 10): skip leading
-   Py_ISSPACE characters (\t \n \v \f \r and space; NOT \x1c..\x1f), optional sign, decimal
-   digits with single underscores strictly between digits, skip trailing white space, end.
+   white space becomes ' ', every non-ASCII decimal digit becomes the ASCII digit of the same value,
+   ASCII is left alone, anything else becomes '?' and ends the string) -> PyLong_FromString(base 10):
+   skip leading Py_ISSPACE characters (\t \n \v \f \r and space; NOT \x1c..\x1f), optional sign,
+   decimal digits with single underscores strictly between digits, skip trailing white space, end.
 
    Decimal(s): PyDec_FromUnicode -> numeric_as_ascii(strip_ws, ignore_underscores): leading and
    trailing Py_UNICODE_ISSPACE characters (here \x1c..\x1f DO count) are stripped, then EVERY
-   underscore is deleted wherever it stands, then mpd_qset_string: optional sign, then one of
+   underscore is deleted wherever it stands, every non-ASCII decimal digit becomes the ASCII digit of the
+   same value (Py_UNICODE_TODECIMAL), then mpd_qset_string: optional sign, then one of
    "inf" / "infinity", "nan"digits*, "snan"digits* (letters in either case), or
-   digits* [. digits*] with at least one digit, optionally followed by  e|E [sign] digits+ . *)
+   digits* [. digits*] with at least one digit, optionally followed by  e|E [sign] digits+ .
+
+   FACTS ABOUT NON-ASCII DIGITS, each with the probe that showed it (CPython 3.12.1, Unicode 15.0.0;
+   ti = int, td = decimal.Decimal, "error" = ValueError resp. InvalidOperation):
+     F1  every decimal digit of every script is read, scripts may be mixed within one numeral:
+           ti("１２") = 12   ti("٣") = 3   ti("1٢") = 12   ti("𝟎𝟗") = 9   td("١.٥") = 1.5   td("0０.０0") = 0.00
+         and ONLY decimal digits (Nd): ti("①"), ti("²"), ti("一"), td("②") are errors; a sweep of all
+         0x110000 code points found no character outside Nd that int() reads as a one-character numeral.
+     F2  underscores behave exactly as between ASCII digits, whatever the scripts on either side:
+           ti("１_２") = 12   ti("1_٢") = 12   ti("１__２"), ti("_１"), ti("１_") are errors
+           td("１__２") = 12  td("_１") = 1   td("１_") = 1   td("1_._5") = 1.5   td("nan_１") = NaN1
+     F3  the sign is ASCII '+' / '-' only:  ti("-٣") = -3, ti("+１") = 1;  ti("＋1"), ti("－1"), ti("−1"),
+         td("＋1"), td("－1"), td("1E＋1") are errors.
+     F4  white space is what it was for ASCII numerals: ti(" １２ ") = 12 (U+2003 either side),
+         ti("　1　") = 1; ti("\x1c１２"), ti("１２\x1f") are errors while td("\x1c１\x1f") = 1;
+         white space inside is an error for both: ti("１　２"), td("１　２"), td("１ １").
+         No decimal digit is white space (checked by regen.py), so stripping never eats a digit.
+     F5  Decimal reads them in every digit position: coefficient, fraction  td(".٥") = 0.5  td("٥.") = 5,
+         exponent  td("1e１") = 1E+1  td("1e-１") = 0.1  td("１E-٣") = 0.001  td("١e١_٠") = 1E+10,
+         NaN payload  td("nan１") = NaN1  td("sNaN٠٠٧") = sNaN7;  "inf１" is an error as "inf1" is.
+     F6  everything that is not a digit stays ASCII-only: td("１．５") (fullwidth stop), td("1٫5") (Arabic
+         decimal separator), td("1ｅ1"), td("ｉｎｆ"), td("ＮaN") are errors; ti("０x１"), ti("0b１") are errors.
+     F7  the limit on the number of digits counts characters, not bytes: ti("٣"*4300) is read,
+         ti("٣"*4301) is an error (outside the domain above, as for ASCII).
+   So the ONLY change with respect to the ASCII model ([parse_int_ascii] / [parse_dec_ascii] below, kept
+   verbatim) is the character class [is_digit] and the value [digit_val]; NumeralsProofs.v proves
+   parse_int s = parse_int_ascii (map ascii_digit s) (what CPython literally does) and that nothing
+   changes on ASCII strings. *)
 From Coq Require Import List NArith ZArith Bool.
 Import ListNotations.
 Require Import OJD.Base.
+Require OJD.Generated.   (* the digit table only; nothing else of Generated.v is used here *)
 Local Open Scope N_scope.
 
 (* ---------- character classes ---------- *)
 
-Definition is_digit (c : N) : bool := (48 <=? c) && (c <=? 57).
-Definition digit_val (c : N) : Z := Z.of_N (c - 48).
+(* the ASCII digits, and their values *)
+Definition is_digit_ascii (c : N) : bool := (48 <=? c) && (c <=? 57).
+Definition digit_val_ascii (c : N) : Z := Z.of_N (c - 48).
+
+(* [c] lies in the block of ten digits whose ZERO is [z] *)
+Definition in_block (c z : N) : bool := (z <=? c) && (c <=? z + 9).
+
+(* the ZERO of the block of [c], looked up in a table of ZEROs *)
+Fixpoint block_zero (tbl : list N) (c : N) : option N :=
+  match tbl with
+  | [] => None
+  | z :: r => if in_block c z then Some z else block_zero r c
+  end.
+
+(* F1: a digit is a member of one of the blocks of [Generated.unicode_zero_digits].  The table lookup
+     existsb (in_block c) unicode_zero_digits
+   is unrolled here, once, at definition time, so that unfolding [is_digit] shows the explicit disjunction
+   of ranges  (48 <=? c) && (c <=? 57) || ((1632 <=? c) && (c <=? 1641) || ...)  that [lia] can read
+   (NumeralsProofs.is_digit_table states the equality with the lookup). *)
+Definition is_digit (c : N) : bool :=
+  Eval cbv beta iota delta [existsb in_block OJD.Generated.unicode_zero_digits
+                            N.add Pos.add Pos.add_carry Pos.succ] in
+  existsb (in_block c) OJD.Generated.unicode_zero_digits.
+
+(* F1: the value of a digit is its offset in its block (0 for a character that is no digit: never used) *)
+Definition digit_val (c : N) : Z :=
+  match block_zero OJD.Generated.unicode_zero_digits c with
+  | Some z => Z.of_N (c - z)
+  | None => 0%Z
+  end.
+
+(* what _PyUnicode_TransformDecimalAndSpaceToASCII / numeric_as_ascii do to a digit *)
+Definition ascii_digit (c : N) : N := if is_digit c then 48 + Z.to_N (digit_val c) else c.
 
 (* the non-ASCII characters with Py_UNICODE_ISSPACE *)
 Definition uni_space (c : N) : bool :=
@@ -56,7 +117,7 @@ Definition strip (p : N -> bool) (s : str) : str :=
 (* ---------- int(str) ---------- *)
 
 (* digits with single underscores strictly between digits; [prev] = the previous character
-   was a digit *)
+   was a digit (F2: the scripts of the digits do not matter) *)
 Fixpoint int_digits (acc : Z) (prev : bool) (s : str) : option Z :=
   match s with
   | [] => if prev then Some acc else None
@@ -66,7 +127,7 @@ Fixpoint int_digits (acc : Z) (prev : bool) (s : str) : option Z :=
     else None
   end.
 
-(* optional sign: (negative?, rest) *)
+(* optional sign: (negative?, rest) — F3: ASCII '+' / '-' only *)
 Definition split_sign (t : str) : bool * str :=
   match t with
   | c :: r => if c =? 43 then (false, r) else if c =? 45 then (true, r) else (false, t)
@@ -89,7 +150,7 @@ Inductive dec : Type :=
 
 Definition lower (c : N) : N := if (65 <=? c) && (c <=? 90) then c + 32 else c.
 
-(* maximal run of ASCII digits: (accumulated value, number of digits, rest) *)
+(* maximal run of digits (F5: of any scripts): (accumulated value, number of digits, rest) *)
 Fixpoint take_digits (acc : Z) (n : Z) (s : str) : Z * Z * str :=
   match s with
   | [] => (acc, n, [])
@@ -117,7 +178,7 @@ Definition take_fraction (ip : Z) (r1 : str) : Z * Z * str :=
   | [] => (ip, 0%Z, r1)
   end.
 
-(* optional exponent part: None = syntax error, Some x = the exponent (0 when absent) *)
+(* optional exponent part: None = syntax error, Some x = the exponent (0 when absent); F5, F3, F6 *)
 Definition take_exponent (r2 : str) : option Z :=
   match r2 with
   | [] => Some 0%Z
@@ -130,7 +191,7 @@ Definition take_exponent (r2 : str) : option Z :=
     else None
   end.
 
-(* after the sign; [neg] is the sign read *)
+(* after the sign; [neg] is the sign read (F5: NaN payload digits; F6: letters are ASCII only) *)
 Definition parse_unsigned (neg : bool) (t : str) : option dec :=
   let l := map lower t in
   if str_eqb l s_inf || str_eqb l s_infinity then Some (Inf neg)
@@ -148,6 +209,68 @@ Definition parse_unsigned (neg : bool) (t : str) : option dec :=
 Definition parse_dec (s : str) : option dec :=
   let '(neg, r) := split_sign (filter (fun c => negb (c =? 95)) (strip dec_space s)) in
   parse_unsigned neg r.
+
+(* ---------- the ASCII-only readers (the model before non-ASCII digits were added), verbatim ----------
+   Same definitions with [is_digit_ascii] / [digit_val_ascii]; used only to STATE what changed
+   (NumeralsProofs.parse_int_normalise, parse_int_ascii_unchanged), never extracted. *)
+
+Fixpoint int_digits_ascii (acc : Z) (prev : bool) (s : str) : option Z :=
+  match s with
+  | [] => if prev then Some acc else None
+  | c :: r =>
+    if is_digit_ascii c then int_digits_ascii (acc * 10 + digit_val_ascii c)%Z true r
+    else if (c =? 95) && prev then int_digits_ascii acc false r
+    else None
+  end.
+
+Definition parse_int_ascii (s : str) : option Z :=
+  let '(neg, r) := split_sign (strip int_space s) in
+  match int_digits_ascii 0%Z false r with
+  | Some z => Some (if neg then Z.opp z else z)
+  | None => None
+  end.
+
+Fixpoint take_digits_ascii (acc : Z) (n : Z) (s : str) : Z * Z * str :=
+  match s with
+  | [] => (acc, n, [])
+  | c :: r => if is_digit_ascii c then take_digits_ascii (acc * 10 + digit_val_ascii c)%Z (n + 1)%Z r else (acc, n, s)
+  end.
+
+Definition take_fraction_ascii (ip : Z) (r1 : str) : Z * Z * str :=
+  match r1 with
+  | c :: r => if c =? 46 then take_digits_ascii ip 0%Z r else (ip, 0%Z, r1)
+  | [] => (ip, 0%Z, r1)
+  end.
+
+Definition take_exponent_ascii (r2 : str) : option Z :=
+  match r2 with
+  | [] => Some 0%Z
+  | c :: r3 =>
+    if (c =? 101) || (c =? 69) then
+      let '(neg, r4) := split_sign r3 in
+      let '(x, nx, r5) := take_digits_ascii 0%Z 0%Z r4 in
+      if (nx =? 0)%Z || negb (is_nil r5) then None
+      else Some (if neg then Z.opp x else x)
+    else None
+  end.
+
+Definition parse_unsigned_ascii (neg : bool) (t : str) : option dec :=
+  let l := map lower t in
+  if str_eqb l s_inf || str_eqb l s_infinity then Some (Inf neg)
+  else if is_prefix s_nan l then (if forallb is_digit_ascii (skipn 3 t) then Some NaN else None)
+  else if is_prefix s_snan l then (if forallb is_digit_ascii (skipn 4 t) then Some NaN else None)
+  else
+    let '(ip, ni, r1) := take_digits_ascii 0%Z 0%Z t in
+    let '(m, nf, r2) := take_fraction_ascii ip r1 in
+    if (ni + nf =? 0)%Z then None
+    else match take_exponent_ascii r2 with
+         | None => None
+         | Some x => Some (Fin (if neg then Z.opp m else m) (x - nf)%Z)
+         end.
+
+Definition parse_dec_ascii (s : str) : option dec :=
+  let '(neg, r) := split_sign (filter (fun c => negb (c =? 95)) (strip dec_space s)) in
+  parse_unsigned_ascii neg r.
 
 (* ---------- finite decimal numbers and their exact order ---------- *)
 
